@@ -84,8 +84,22 @@ def run(ctx, build, verdict, ev):
         aa = np.array([p[0] for p in sub])
         bb = np.array([p[1] for p in sub])
         ka, kb = aa.copy(), bb.copy()
-        with np.errstate(all="ignore"):
-            rr = np.asarray(norm.compute(aa, bb))
+        try:
+            with np.errstate(all="ignore"):
+                rr = np.asarray(norm.compute(aa, bb))
+                # array-likes and mixed shapes are elementwise too: lists, a float against an array, a column against a row
+                shapes = {"lists": (list(aa[:5]), list(bb[:5])), "float-vs-array": (float(aa[0]), bb[:5]), "array-vs-float": (aa[:5], float(bb[0])),
+                          "column-vs-row": (aa[:3].reshape(-1, 1), bb[:4].reshape(1, -1))}
+                for label, (xa, xb) in shapes.items():
+                    got = np.asarray(norm.compute(xa, xb), dtype=float)
+                    want = np.array([[float(norm.compute(float(u), float(v))) for v in np.ravel(xb)] for u in np.ravel(xa)])
+                    want = want.reshape(np.broadcast(np.asarray(xa, dtype=float), np.asarray(xb, dtype=float)).shape) if label in ("column-vs-row",) else \
+                        np.array([float(norm.compute(float(u), float(v))) for u, v in zip(*np.broadcast_arrays(np.asarray(xa, dtype=float), np.asarray(xb, dtype=float)))])
+                    if got.shape != want.shape or not all(vlib.same_float(g, w) for g, w in zip(got.ravel(), want.ravel())):
+                        verdict.add_violation(f"{name}:elementwise-{label}", f"{name}.compute on {label} operands is not the elementwise result", {"norm": name, "a": np.asarray(xa).tolist(), "b": np.asarray(xb).tolist()})
+        except Exception as ex:  # noqa
+            verdict.add_violation(f"{name}:exception", f"{name}.compute raises {type(ex).__name__} on array operands: {ex}", {"norm": name, "error": str(ex)})
+            rr = np.array([float(norm.compute(float(u), float(v))) for u, v in zip(ka, kb)])
         if not (all(vlib.same_float(x, y) for x, y in zip(aa, ka)) and all(vlib.same_float(x, y) for x, y in zip(bb, kb))):
             verdict.add_violation(f"{name}:argument-overwritten", f"{name}.compute(arrays) modifies its arguments in place", {"norm": name})
             aa, bb = ka.copy(), kb.copy()
